@@ -1,5 +1,5 @@
 """Property -> rules.  Each entry: run(prog, tier) -> (obligations, floors, meta)."""
-from .rules import bounds, arith, index, numctor, cmp, jsonw, memo, strict
+from .rules import bounds, arith, index, numctor, cmp, jsonw, memo, strict, lookup, tls, imports, hashord
 
 COMMON_TRUST = [
     "rustc nightly HIR/MIR construction, trait resolution and const evaluation",
@@ -70,6 +70,10 @@ def c04(prog, tier):
     obs, floors, an = merge(
         arith.run(prog, crate_is(*EVAL_CRATES), floor=40),
         index.run(prog, crate_is(*EVAL_CRATES), floor=25),
+        # "after any error the same thread evaluates further programs normally"
+        only(tls.run(prog), ("check_depth", "run_assertions", "<StackDepthGuard", "StateEnterGuard", "jrsonnet_evaluator::in_")),
+        only(imports.run(prog), ("import_resolved:reset", "import_resolved:cycle", "import_resolved:borrow")),
+        only(memo.run(prog), tuple(n + ":" + k for n in ("MemoizedClosureThunk::get", "ExprArray::get", "MappedArray::get", "ObjValue::get_idx") for k in ("pending", "borrow", "store"))),
     )
     meta = {
         "level": "other",
@@ -152,8 +156,86 @@ def c09(prog, tier):
     return obs, floors, meta
 
 
+def only(res, prefixes):
+    obs, floors, an = res
+    return [o for o in obs if o.key.split(":", 1)[1].startswith(prefixes)], [], an
+
+
+def c02(prog, tier):
+    obs, floors, an = merge(lookup.run(prog), only(memo.run(prog), ("ObjValue::get_idx", "object-locals", "CachedUnbound")),
+                            only(tls.run(prog), ("run_assertions",)))
+    meta = {
+        "level": "other",
+        "explanation": (
+            "Static decision of the structural protocol behind C02 (HIR sibling cross-check + MIR): the three layer walkers "
+            "(has_field_include_hidden_idx, get_idx_uncached, field_visibility_idx) all iterate cores[..idx] right to left, "
+            "turn Omit(n) into skip = max(skip, n+1), accept positive outcomes only under skip == 0, and decrement skip exactly "
+            "once per layer; get_for_core is asked with omit_only = (skip != 0) and every non-omit core answers NotFound under "
+            "omit_only without evaluating; every ObjValueInner starts with an empty cache and assertions_ran = !has_assertions; "
+            "has_field/has_field_ex select the right walker; == compares visible field lists; a + b is b.extend_from(a) and "
+            "extend_from concatenates sup ++ self; per-(name,layer) field memo and per-object locals context (R-MEMO); "
+            "run_assertions restores RUNNING_ASSERTIONS on every exit (R-TLS). NOT decided: that reads return the right "
+            "layer's *value* for all chains."),
+        "rule": "R-LOOKUP (HIR match-arm / loop-shape comparison of sibling walkers; MIR entry-switch of cores; aggregate sites), R-MEMO, R-TLS",
+        "rules": ["R-LOOKUP", "R-MEMO", "R-TLS"],
+        "analysed": an,
+        "decided": "walker protocol agreement; omit_only honoured; cache/assertion state initialised; predicate wiring",
+        "not_decided": "values of reads; super/self binding beyond the SupThis built from the loop index",
+        "trusted_base": COMMON_TRUST,
+        "assumptions": [],
+    }
+    return obs, floors, meta
+
+
+def c07(prog, tier):
+    obs, floors, an = merge(imports.run(prog))
+    meta = {
+        "level": "other",
+        "explanation": (
+            "Static decision of the structural clauses of C07 (MIR typestate): import_resolved returns a cached value without "
+            "re-evaluating, reports a file that is being evaluated as InfiniteRecursionDetected, stores evaluating=true before "
+            "and evaluating=false after evaluate() on *every* exit (success and error), drops the file_cache guard before "
+            "evaluating; all three import_resolved* read the file only on the Vacant cache edge and insert only after a "
+            "successful read; resolve_from checks the importer-relative path before the library paths, which are searched "
+            "front to back; the cache key of a regular file is always path.canonicalize(); the CLI reverses -J before "
+            "appending JSONNET_PATH. NOT decided: resolver fault/retry histories; filesystem symlink semantics."),
+        "rule": "R-IMPORT: MIR variant-edge reachability, field-store-on-all-exits, guard liveness, callee/argument provenance; HIR loop order",
+        "rules": ["R-IMPORT"],
+        "analysed": an,
+        "decided": "read-once / evaluate-once / cycle / flag reset / search order / canonical key",
+        "not_decided": "behaviour under injected resolver faults; importstr byte equality",
+        "trusted_base": COMMON_TRUST,
+        "assumptions": ["Path::canonicalize resolves symlinks and relative components (std contract)"],
+    }
+    return obs, floors, meta
+
+
+def c16(prog, tier):
+    obs, floors, an = merge(hashord.run(prog), tls.run(prog), only(imports.run(prog), ("import_resolved:reset", "import_resolved:marker")))
+    meta = {
+        "level": "other",
+        "explanation": (
+            "Static decision of the structural clauses of C16. R-HASHORD: every order-exposing call on a HashMap/HashSet in "
+            "product code (8 sources today) is either totally sorted by content before it escapes, a reviewed "
+            "order-insensitive consumer, or a reviewed emitter whose every (transitive) consumer is discharged; a new "
+            "iteration site is reported. R-TLS: the frame counter is incremented only together with a guard; guard Drops "
+            "write the inverse value; every guard-returning call binds its result to a named local (or is a reviewed "
+            "forwarder); run_assertions leaves RUNNING_ASSERTIONS on all exits; FileData.evaluating is reset on all exits. "
+            "NOT decided: cross-process byte identity in general (allocator, environment), dependencies."),
+        "rule": "R-HASHORD (MIR call enumeration by receiver type + sort/comparator analysis + reviewed consumer table), R-TLS (MIR pairing / all-exits reachability)",
+        "rules": ["R-HASHORD", "R-TLS", "R-IMPORT"],
+        "analysed": an,
+        "decided": "no hash order reaches an observable; interpreter state restored on every exit",
+        "not_decided": "determinism of dependencies; interner history effects beyond hashing",
+        "trusted_base": COMMON_TRUST + ["reviewed consumer table in rules/hashord.py (one reason per entry)"],
+        "assumptions": ["IStr Ord is by content (checked by reading inner.rs)"],
+    }
+    return obs, floors, meta
+
+
 def c03(prog, tier):
-    obs, floors, an = merge(memo.run(prog), strict.run(prog))
+    obs, floors, an = merge(memo.run(prog), strict.run(prog),
+                            only(lookup.run(prog), ("OopObject::get_for_core", "StandaloneSuperCore::get_for_core", "get_idx_uncached:omit_only")))
     meta = {
         "level": "other",
         "explanation": (
@@ -204,6 +286,9 @@ def c05(prog, tier):
 
 
 PROPS = {
+    "C02": {"run": c02, "thorough_cfgs": ["default", "experimental"]},
+    "C07": {"run": c07, "thorough_cfgs": ["default"]},
+    "C16": {"run": c16, "thorough_cfgs": ["default", "experimental"]},
     "C03": {"run": c03, "thorough_cfgs": ["default", "experimental"]},
     "C05": {"run": c05, "thorough_cfgs": ["default", "experimental"]},
     "C09": {"run": c09, "thorough_cfgs": ["default", "experimental"]},
